@@ -102,9 +102,9 @@ def fromAbstract (n : List Nat) : Option Addr :=
   if n.length + 1 > 108 then none else some (.abstr n)
 
 /-- `unix::net::SocketAddr::init` (src/net.rs:1787-1808, with the fix that
-strips the terminating NUL of path names). `len` is the length the kernel
-reported. -/
-def initUnix (st : List Nat) (len : Nat) : Addr :=
+strips the terminating NUL of path names and the fix 2945ba2 for a reported
+length below the family field). `len` is the length the kernel reported. -/
+def initUnixCore (st : List Nat) (len : Nat) : Addr :=
   let path := (st.drop 2).take (len - 2)
   let viaPath : Addr :=
     (fromPathname (path.takeWhile (· ≠ 0))).getD .unnamed
@@ -115,11 +115,18 @@ def initUnix (st : List Nat) (len : Nat) : Addr :=
     | none => viaPath
   | _ => viaPath
 
+/-- `init` proper: when the kernel wrote no address (reported length below the
+family field; 0 for a datagram from an unbound socket) the address is unnamed
+(`fix:` commit 2945ba2), otherwise the path bytes are decoded. -/
+def initUnix (st : List Nat) (len : Nat) : Addr :=
+  if len < 2 then .unnamed else initUnixCore st len
+
 /-- Lengths the kernel reports for a Unix address (`unix_getname`,
-`unix_mkname`): unnamed 2; abstract `2 + 1 + |n|`; path name `2 + |p| + 1`
+`unix_mkname`): unnamed 2, and 0 when `recvmsg` has no sender address to
+report (`unix_copy_addr` of an unbound sender); abstract `2 + 1 + |n|`; path name `2 + |p| + 1`
 (with the terminating NUL) and, when the path fills `sun_path`, `2 + |p|`. -/
 def kernelLens : Addr → List Nat
-  | .unnamed => [2]
+  | .unnamed => [2, 0]
   | .abstr n => [3 + n.length]
   | .path p => [2 + p.length + 1, 2 + p.length]
   | .v4 _ _ => [16]
